@@ -346,3 +346,7 @@ func abs(x int) int {
 func TestC20(t *testing.T) {
 	stats.Run(t, stats.Prop[C20Case]{ID: "C20", Rule: ruleC20, Gen: genC20, Check: checkC20})
 }
+
+func FuzzC20Rapid(f *testing.F) {
+	stats.Fuzz(f, stats.Prop[C20Case]{ID: "C20", Rule: ruleC20, Gen: genC20, Check: checkC20})
+}
